@@ -42,7 +42,7 @@ CREATORS = ["none", "ok", "failfirst", "wrongtype"]
 MODES = {"S": "single", "N": "session", "P": "percall"}
 
 
-def make_classes(shape, creator_kind, stats):
+def make_classes(shape, creator_kind, stats, inherit=False):
     import Pyro5.api as P
     serial = itertools.count(1)
     classes = {}
@@ -86,6 +86,9 @@ def make_classes(shape, creator_kind, stats):
                 stats["creator_calls"][K] += 1
                 return object()
         cls = P.behavior(instance_mode=mode, instance_creator=creator)(cls)
+        if inherit:
+            # what gets registered is a plain subclass: exposure, instance mode and creator are all inherited
+            cls = type("Sub_%s_%s" % (K, shape), (cls,), {})
         classes[K] = cls
     return classes
 
@@ -126,7 +129,7 @@ def end_connection(p, abortive):
     p._pyroRelease()
 
 
-def run_history(h, shape, creator_kind, servertype="multiplex", hookraise=False, two_daemons=False, abortive=False):
+def run_history(h, shape, creator_kind, servertype="multiplex", hookraise=False, two_daemons=False, abortive=False, inherit=False):
     import Pyro5.api as P
     from Pyro5 import config
     config.SERVERTYPE = servertype
@@ -138,7 +141,7 @@ def run_history(h, shape, creator_kind, servertype="multiplex", hookraise=False,
     def main():
         sc = S.CUR
         d = daemon_class(P, hookraise)(host="127.0.0.1")
-        classes = make_classes(shape, creator_kind, stats)
+        classes = make_classes(shape, creator_kind, stats, inherit=inherit)
         uris = {K: d.register(cls, K) for K, cls in classes.items()}
         drv = memnet.ServerDriver(d)
         conns = {}
@@ -274,14 +277,16 @@ def run(ctx):
             st = "thread" if i % 4 == 3 else "multiplex"
             two = i % 5 == 1        # a second daemon in the same process takes over half way
             ab = i % 7 in (2, 3)    # the connections end with a reset instead of an orderly close
-            traces.append(run_history(h, shape, "none", servertype=st, hookraise=hr, two_daemons=two, abortive=ab))
+            inh = i % 6 in (1, 4)   # the registered classes inherit their behaviour from a base class
+            traces.append(run_history(h, shape, "none", servertype=st, hookraise=hr, two_daemons=two, abortive=ab, inherit=inh))
             metas.append({"part": "history" + ("-threadserver" if st == "thread" else ""), "shape": shape, "creator": "none", "h": h, "hookraise": hr,
-                          "two_daemons": two, "abortive": ab})
+                          "two_daemons": two, "abortive": ab, "inherit": inh})
     for creator in CREATORS[1:]:
         for shape in ("truthy", "falsy_len"):
-            for h in hs[n_plain:n_plain + n_creator]:
-                traces.append(run_history(h, shape, creator))
-                metas.append({"part": "history", "shape": shape, "creator": creator, "h": h})
+            for j, h in enumerate(hs[n_plain:n_plain + n_creator]):
+                inh = j % 3 == 1
+                traces.append(run_history(h, shape, creator, inherit=inh))
+                metas.append({"part": "history", "shape": shape, "creator": creator, "h": h, "inherit": inh})
     if not ctx.quick:
         for shape in SHAPES:
             for h in hs[-150:]:
@@ -338,7 +343,7 @@ def replay(ctx, path):
             print("replay of race cases: rerun the check (schedules are re-explored)")
             continue
         tr = run_history(meta["h"], meta["shape"], meta["creator"], "thread" if "thread" in meta["part"] else "multiplex",
-                         hookraise=meta.get("hookraise", False), two_daemons=meta.get("two_daemons", False), abortive=meta.get("abortive", False))
+                         hookraise=meta.get("hookraise", False), two_daemons=meta.get("two_daemons", False), abortive=meta.get("abortive", False), inherit=meta.get("inherit", False))
         v, _ = tlc.validate(ctx, "Trace_Inst", [tr], cfg="Trace_Inst.cfg")
         print("replay:", meta["shape"], meta["creator"], "->", v[0] or "accepted")
         bad += bool(v[0])
